@@ -9,7 +9,9 @@
    Part 2: [merge_slice] and [class_merger_merge] over an abstract class (every component the
            merge looks at is a field of the record, everything it only copies is one opaque
            number), with the three possible outcomes of the Rust code: value, [Err] (bail!)
-           and panic (assert_eq!, unreachable!, panic!).
+           and panic (assert_eq!, unreachable!, panic!).  Permitted subclasses are merged like the
+           interfaces, record components are the client's (as repaired by "fix: merging two
+           versions of a class keeps its record components and permitted subclasses").
    Part 3: [merge]: the entry table Client/Server/Both built by IndexMap insertion, the
            MANIFEST replacement, the two skip rules, class-level side annotations, byte-identical
            pass-through, and the per-kind combination of entries both jars have.
@@ -118,8 +120,8 @@ Record aclass := mkClass {
   c_inner : option (list (str * N));   (* InnerClasses: key = inner class name, rest opaque *)
   c_vis : list ann;                    (* RuntimeVisibleAnnotations *)
   c_inv : list ann;                    (* RuntimeInvisibleAnnotations *)
-  c_perm : N;                          (* PermittedSubclasses (0 = None) *)
-  c_rec : N;                           (* record components (0 = none) *)
+  c_perm : option (list str);          (* PermittedSubclasses: the permitted class names *)
+  c_rec : N;                           (* record components, opaque (0 = none) *)
   c_rest : N                           (* everything else, opaque; the merge takes the client's *)
 }.
 
@@ -208,6 +210,15 @@ Definition one_sided (merged mine theirs : list str) : list str :=
 Definition itf_marks (merged ci si : list str) : list (side * str) :=
   map (fun i => (Client, i)) (one_sided merged ci si) ++ map (fun i => (Server, i)) (one_sided merged si ci).
 
+(* permitted_subclasses: None when neither side has the attribute, else the union of both lists
+   by merge_preserve_order (as repaired by "fix: merging two versions of a class keeps its record
+   components and permitted subclasses") *)
+Definition merge_perm (c s : option (list str)) : option (list str) :=
+  match c, s with
+  | None, None => None
+  | _, _ => Some (mpo str_eqb (unwrap_or_default c) (unwrap_or_default s))
+  end.
+
 Definition class_merge (c s : aclass) : out aclass :=
   let itfs := mpo str_eqb (c_itfs c) (c_itfs s) in
   dO version <- from_client N.eqb (c_version c) (c_version s);
@@ -224,7 +235,7 @@ Definition class_merge (c s : aclass) : out aclass :=
         (match inner with [] => None | _ => Some inner end)
         (c_vis c)
         (match marks with [] => c_inv c | _ => c_inv c ++ [AItfs marks] end)
-        0 0 (c_rest c)).
+        (merge_perm (c_perm c) (c_perm s)) (c_rec c) (c_rest c)).
 
 (* visit_sided_annotation: class-level mark in RuntimeVisibleAnnotations *)
 Definition mark_class (c : aclass) (s : side) : aclass :=
